@@ -53,6 +53,27 @@ def rand_pipeline(rng, pid):
     return {"pid": pid, "prio": rng.choice(gen.PRIOS), "ops": ops}
 
 
+def hash_twins_case(rng):
+    """Rows that differ in one number only, where the two numbers have the same Python hash (floats hash modulo
+    2**61 - 1: v and v * 2**61; hash(None) is a fixed number that is also a float): nothing may be keyed by hash."""
+    nh = float(hash(None) % (2 ** 61 - 1))
+    twins = [(1.0, 2.0 ** 61), (0.5, 2.0 ** 60), (3.0, 3.0 * 2.0 ** 61), (37.5, 37.5 * 2.0 ** 61)]
+    arrivals = {}
+    j = 0
+    for a, b in twins:
+        for field in ("cpu", "read", "mem"):
+            ops = []
+            for v in (a, b, a):
+                seg = {"cpu": 2.0, "law": "sqrt", "mem": 4.0, "read": 8.0}
+                seg[field] = v
+                ops.append({"parents": [], "segs": [seg]})
+            arrivals.setdefault(str(j), []).append({"pid": f"tw{j}", "prio": rng.choice(gen.PRIOS), "ops": ops})
+            j += 1
+    ops = [{"parents": [], "segs": [{"cpu": 2.0, "law": "const", "mem": m, "read": 8.0}]} for m in (None, nh, None, 0.0, nh)]
+    arrivals.setdefault(str(j), []).append({"pid": "none-twin", "prio": "QUERY", "ops": ops})
+    return {"kind": "roundtrip", "tps": 10, "arrivals": arrivals, "ticks": j + 3, "_hash_twins": True}
+
+
 def big_file_case(rng, npipes):
     arrivals = {}
     for j in range(npipes):
@@ -78,6 +99,7 @@ def big_file_case(rng, npipes):
 
 def cases(tier, seed, shard, nshards):
     rng = rng_for(ID, seed, shard)
+    yield hash_twins_case(rng)
     if tier == "thorough" or shard < 3:
         yield big_file_case(rng, 5000 if tier == "quick" else 20000)
     for i in range(N[tier]):
@@ -200,7 +222,7 @@ def run_case(case, mon):
     col = {name: i for i, name in enumerate(hdr)}
     first_rows = [i for i in range(1, len(rows)) if rows[i][col["arrival_seconds"]] != ""]
     later_rows = [i for i in range(1, len(rows)) if rows[i][col["arrival_seconds"]] == ""]
-    for kind, u in case["malform"]:
+    for kind, u in case.get("malform", []):
         rr = [list(r) for r in rows]
         if kind in ("later-priority", "later-arrival") and not later_rows:
             continue
